@@ -22,6 +22,103 @@ thread_local! {
     pub static STORE_CB: RefCell<Option<Box<dyn FnMut(&Ev)>>> = RefCell::new(None);
 }
 
+/// C02 monitor state: what a device that looks at queue memory at ANY instant must find.
+pub struct C02State {
+    pub a: QAddr,
+    pub start: u16,
+    /// the device has fetched every entry with sequence number below this
+    pub cursor_seq: u64,
+    /// published entries: (sequence number, token, expected (addr, len, writable) elements)
+    pub entries: Vec<(u64, u16, Vec<(u64, u32, bool)>)>,
+    /// the submission in progress: its sequence number and its buffers (vaddr, len, writable)
+    pub inprogress: Option<(u64, Vec<(usize, u32, bool)>)>,
+    pub next_seq: u64,
+    pub checks: u64,
+    pub violations: Vec<String>,
+}
+thread_local! { pub static C02: RefCell<Option<C02State>> = RefCell::new(None); }
+
+fn walk_elems(a: &QAddr, head: u16) -> Result<Vec<(u64, u32, bool)>, String> {
+    let n = a.size;
+    if head as usize >= n { return Err(format!("head {} out of range", head)); }
+    let (addr, len, flags, _) = read_desc(a, head as usize).ok_or("descriptor unreadable")?;
+    let mut out = vec![];
+    if flags & 4 != 0 {
+        if flags & 3 != 0 { return Err("INDIRECT combined with NEXT/WRITE".into()); }
+        let b = hal::dev_read(addr, len as usize).map_err(|e| format!("indirect table: {}", e))?;
+        let m = len as usize / 16;
+        if m == 0 || len as usize % 16 != 0 { return Err("bad indirect table length".into()); }
+        let mut i = 0usize; let mut steps = 0;
+        loop {
+            if i >= m { return Err("indirect next out of range".into()); }
+            let d = &b[16 * i..16 * i + 16];
+            let f = u16::from_le_bytes([d[12], d[13]]);
+            if f & 4 != 0 { return Err("nested INDIRECT".into()); }
+            out.push((u64::from_le_bytes(d[0..8].try_into().unwrap()), u32::from_le_bytes(d[8..12].try_into().unwrap()), f & 2 != 0));
+            steps += 1;
+            if f & 1 == 0 { break; }
+            if steps > m { return Err("cycle in indirect table".into()); }
+            i = u16::from_le_bytes([d[14], d[15]]) as usize;
+        }
+    } else {
+        let mut cur = head as usize; let mut steps = 0;
+        loop {
+            if cur >= n { return Err("next out of range".into()); }
+            let (a1, l1, f1, nx) = read_desc(a, cur).ok_or("descriptor unreadable")?;
+            if f1 & 4 != 0 && steps > 0 { return Err("INDIRECT inside a chain".into()); }
+            out.push((a1, l1, f1 & 2 != 0));
+            steps += 1;
+            if f1 & 1 == 0 { break; }
+            if steps > n { return Err("cycle".into()); }
+            cur = nx as usize;
+        }
+    }
+    Ok(out)
+}
+
+/// run at every device-visible store: every entry between the device's fetch cursor and the available index
+/// it could read right now must be completely written
+pub fn c02_check(what: &str) {
+    C02.with(|c| {
+        let mut c = c.borrow_mut();
+        let st = match c.as_mut() { Some(s) => s, None => return };
+        st.checks += 1;
+        let n = st.a.size;
+        let idx_vis = match hal::dev_read_u16(st.a.drv + 2) { Ok(v) => v, Err(_) => return };
+        // visible index as a sequence number: it can only be next_seq (all published) or next_seq + 1 (the
+        // submission in progress has just been published); anything else is a violation in itself
+        let base16 = st.start.wrapping_add(st.next_seq as u16);
+        let ahead = idx_vis.wrapping_sub(base16);
+        if ahead > 1 { st.violations.push(format!("at {}: available index {} is not {} or {}+1", what, idx_vis, base16, base16)); return; }
+        let vis_seq = st.next_seq + ahead as u64;
+        let mut seq = st.cursor_seq;
+        while seq < vis_seq {
+            let pos16 = st.start.wrapping_add(seq as u16);
+            let slot = (pos16 as usize) & (n - 1);
+            let head = hal::dev_read_u16(st.a.drv + 4 + 2 * slot as u64).unwrap_or(u16::MAX);
+            let expected: Option<(Option<u16>, Vec<(u64, u32, bool)>)> =
+                if let Some(e) = st.entries.iter().find(|e| e.0 == seq) { Some((Some(e.1), e.2.clone())) }
+                else if let Some((s, bufs)) = &st.inprogress { if *s == seq {
+                    let live = hal::live_share_list();
+                    let mut v = vec![]; let mut ok = true;
+                    for (va, l, w) in bufs { match live.iter().find(|x| x.1 == *va) { Some(x) => v.push((x.0, *l, *w)), None => ok = false } }
+                    if ok { Some((None, v)) } else { Some((None, vec![(u64::MAX, 0, false)])) }
+                } else { None } } else { None };
+            match expected {
+                None => st.violations.push(format!("at {}: index covers entry #{} which was never submitted", what, seq)),
+                Some((tok, exp)) => {
+                    if let Some(t) = tok { if t != head { st.violations.push(format!("at {}: ring slot {} holds {} instead of {}", what, slot, head, t)); } }
+                    match walk_elems(&st.a, head) {
+                        Ok(el) => if el != exp { st.violations.push(format!("at {}: entry #{} (head {}) reads {:?}, expected {:?}", what, seq, head, el, exp)); },
+                        Err(e) => st.violations.push(format!("at {}: entry #{} (head {}): {}", what, seq, head, e)),
+                    }
+                }
+            }
+            seq += 1;
+        }
+    });
+}
+
 pub fn read_desc(q: &QAddr, i: usize) -> Option<(u64, u32, u16, u16)> {
     let b = hal::dev_read(q.desc + 16 * i as u64, 16).ok()?;
     Some((u64::from_le_bytes(b[0..8].try_into().unwrap()), u32::from_le_bytes(b[8..12].try_into().unwrap()),
@@ -55,7 +152,13 @@ pub fn observer(e: Event) {
     };
     let cb = STORE_CB.with(|c| c.borrow_mut().take());
     if let Some(mut cb) = cb { cb(&ev); STORE_CB.with(|c| { let mut c = c.borrow_mut(); if c.is_none() { *c = Some(cb); } }); }
-    if let Ev::Spin(_) = ev { cosim_spin(); } else { hal::push(ev); }
+    match &ev {
+        Ev::Spin(_) => cosim_spin(),
+        Ev::Fence => hal::push(ev),
+        Ev::StoreDesc { index, .. } => { c02_check(&format!("store of descriptor {}", index)); hal::push(ev); }
+        Ev::Store { what, .. } => { c02_check(&format!("store kind {}", what)); hal::push(ev); }
+        _ => hal::push(ev),
+    }
 }
 
 pub struct Sub {
@@ -134,6 +237,7 @@ impl<const N: usize> Rig<N> {
             hal::dev_write_u16(a.dev + 2, start).unwrap();
             ctx.tr.line(101, &[start as u128], &[]);
         }
+        C02.with(|c| *c.borrow_mut() = Some(C02State { a, start, cursor_seq: 0, entries: vec![], inprogress: None, next_seq: 0, checks: 0, violations: vec![] }));
         Some(Rig { q, t, st, a, indirect, event_idx, avail_idx: start, last_used: start, dev_used_idx: start,
             subs: vec![], used_order: vec![], next_id: 1, quiet_visible: false })
     }
@@ -189,6 +293,11 @@ impl<const N: usize> Rig<N> {
         for b in ins.iter_mut() { let id = self.next_id; self.next_id += 1; ids.push(id); BUFIDS.with(|m| m.borrow_mut().insert(b.as_ptr() as usize, id)); }
         for b in outs.iter_mut() { let id = self.next_id; self.next_id += 1; ids.push(id); BUFIDS.with(|m| m.borrow_mut().insert(b.as_ptr() as usize, id)); }
         let old_idx = self.avail_idx;
+        C02.with(|c| if let Some(st) = c.borrow_mut().as_mut() {
+            let mut bufs: Vec<(usize, u32, bool)> = ins.iter().map(|b| (b.as_ptr() as usize, b.len() as u32, false)).collect();
+            bufs.extend(outs.iter().map(|b| (b.as_ptr() as usize, b.len() as u32, true)));
+            let seq = st.next_seq; st.inprogress = Some((seq, bufs));
+        });
         let mark = hal::log_len();
         let r = {
             let in_refs: Vec<&[u8]> = ins.iter().map(|b| &b[..]).collect();
@@ -214,6 +323,11 @@ impl<const N: usize> Rig<N> {
         match r {
             Ok(Ok(tok)) => {
                 self.avail_idx = self.avail_idx.wrapping_add(1);
+                C02.with(|c| if let Some(st) = c.borrow_mut().as_mut() {
+                    let exp: Vec<(u64, u32, bool)> = lens_in.iter().chain(lens_out.iter()).enumerate()
+                        .map(|(k, l)| (addrs[k], *l as u32, k >= lens_in.len())).collect();
+                    let seq = st.next_seq; st.entries.push((seq, tok, exp)); st.next_seq += 1; st.inprogress = None;
+                });
                 // C01 monitor line: what the device reaches from the new ring entry
                 let slot = (old_idx as usize) & (N - 1);
                 let ring_val = hal::dev_read_u16(self.a.drv + 4 + 2 * slot as u64).unwrap();
@@ -232,6 +346,7 @@ impl<const N: usize> Rig<N> {
                 Some(tok)
             }
             _ => {
+                C02.with(|c| if let Some(st) = c.borrow_mut().as_mut() { st.inprogress = None; });
                 for b in ins.iter() { BUFIDS.with(|m| m.borrow_mut().remove(&(b.as_ptr() as usize))); }
                 for b in outs.iter() { BUFIDS.with(|m| m.borrow_mut().remove(&(b.as_ptr() as usize))); }
                 None
@@ -243,6 +358,11 @@ impl<const N: usize> Rig<N> {
     /// writable buffers through their device addresses and publishing a used element
     pub fn device_complete(&mut self, ctx: &mut Ctx, k: usize, used_id_override: Option<u32>, len_override: Option<u32>) {
         let tok = self.subs[k].token;
+        // a device completing this entry has fetched it and every earlier one
+        C02.with(|c| if let Some(st) = c.borrow_mut().as_mut() {
+            if let Some(e) = st.entries.iter().filter(|e| e.1 == tok).map(|e| e.0).max() { if e + 1 > st.cursor_seq { st.cursor_seq = e + 1; } }
+            let cur = st.cursor_seq; st.entries.retain(|e| e.0 >= cur);
+        });
         let n_in = self.subs[k].ins.len();
         let mut total = 0u32; let mut written = vec![];
         for (j, b) in self.subs[k].outs.iter().enumerate() {
@@ -354,6 +474,10 @@ impl<const N: usize> Rig<N> {
     pub fn finish(self, ctx: &mut Ctx) {
         let Rig { q, t, subs, .. } = self;
         // shares still live must be exactly the buffers (and tables) of the outstanding chains
+        let (checks, viol) = C02.with(|c| { let mut c = c.borrow_mut(); let r = c.as_ref().map(|s| (s.checks, s.violations.clone())).unwrap_or((0, vec![])); *c = None; r });
+        for v in viol.iter().take(5) { ctx.tr.comment(&format!("C02: {}", v)); }
+        ctx.tr.line(158, &[checks as u128, viol.len() as u128], &[1]);
+        ctx.tr.note_n("store_instants_checked", checks);
         let live = hal::live_shares();
         let expect: usize = subs.iter().map(|s| s.ids.len() + if s.idxs.len() == 1 && s.ids.len() > 1 { 1 } else { 0 }).sum();
         ctx.tr.line(154, &[live as u128, expect as u128], &[1]);
